@@ -10,6 +10,8 @@ package main
 //               the edge); the gap is filled with the tail bytes         -> guard=
 //         (iii) in the middle of mapped memory, directly followed by the
 //               tail bytes (a plausible continuation)                    -> tail=
+//         (iv)  starting `offset` bytes behind a PROT_NONE page (reads in
+//               front of the input fault), followed by the tail bytes     -> pre=
 //       a native over-read in (ii) is a fault: that placement answers
 //       `PANIC.runtime_error:_invalid_memory_address…` (SetPanicOnFault); with VERIF_MEM_HARDFAULT=1
 //       it is `fatal error: fault`, the worker dies and the runner records sonic=CRASH.
@@ -48,6 +50,7 @@ const (
 )
 
 var (
+	memFront     []byte // one PROT_NONE page followed by memPages*memPage bytes RW (this slice = the RW part)
 	memArena     []byte // memPages*memPage bytes RW followed by one PROT_NONE page
 	memMode      string
 	memHardFault = os.Getenv("VERIF_MEM_HARDFAULT") != ""
@@ -66,6 +69,37 @@ func memInit() {
 		panic("mprotect: " + err.Error())
 	}
 	memArena = b[:memPages*memPage]
+	f, err := syscall.Mmap(-1, 0, total, syscall.PROT_READ|syscall.PROT_WRITE, syscall.MAP_ANON|syscall.MAP_PRIVATE)
+	if err != nil {
+		panic("mmap: " + err.Error())
+	}
+	if err := syscall.Mprotect(f[:memPage], syscall.PROT_NONE); err != nil {
+		panic("mprotect: " + err.Error())
+	}
+	memFront = f[memPage:]
+}
+
+// memPlaceFront: the input starts `off` bytes behind a PROT_NONE page (offset 0 = its first byte is the first
+// mapped byte: a load in front of the input faults); the gap holds a hostile pattern, the continuation follows.
+func memPlaceFront(doc []byte, off int, after []byte) (string, []byte) {
+	for i := 0; i < off; i++ {
+		memFront[i] = memPrefix[(off-i)%len(memPrefix)]
+	}
+	copy(memFront[off:], doc)
+	end := off + len(doc)
+	for i := end; i < end+256; i++ {
+		if len(after) == 0 {
+			memFront[i] = 0
+		} else {
+			memFront[i] = after[(i-end)%len(after)]
+		}
+	}
+	if len(doc) == 0 {
+		p := unsafe.Pointer(&memFront[off])
+		return memMkString(p, 0), unsafe.Slice((*byte)(p), 0)
+	}
+	p := &memFront[off]
+	return memMkString(unsafe.Pointer(p), len(doc)), unsafe.Slice(p, len(doc))[:len(doc):len(doc)]
 }
 
 func memSimdMode() string {
@@ -360,6 +394,25 @@ func memCallAPI(api string, s string, b []byte) string {
 	case "unm_map":
 		var v map[string]interface{}
 		return memUnmInto(sonic.ConfigDefault, s, &v)
+	// fixed-size Go arrays shorter than the JSON array: the JIT decoder's _OP_array_skip calls the native
+	// skip_array stub (a slot of the dispatch table that nothing else reaches)
+	case "unm_arr2":
+		var v [2]int
+		return memUnmInto(sonic.ConfigDefault, s, &v)
+	case "unm_arr1s":
+		var v [1]string
+		return memUnmInto(sonic.ConfigDefault, s, &v)
+	case "unm_arr0":
+		var v [0]interface{}
+		err := sonic.ConfigDefault.UnmarshalFromString(s, &v)
+		return memErrCanon(err)
+	case "unm_starr":
+		var v struct {
+			A [2]float64        `json:"a"`
+			B int               `json:"b"`
+			C [1][1]interface{} `json:"c"`
+		}
+		return memUnmInto(sonic.ConfigDefault, s, &v)
 	case "unm_struct":
 		var v memStruct
 		return memUnmInto(sonic.ConfigDefault, s, &v)
@@ -413,6 +466,47 @@ func memCallAPI(api string, s string, b []byte) string {
 	case "ast_loads":
 		p, v, err := ast.Loads(s)
 		return memErrCanon(err) + ":" + itoa(p) + ":" + memValCanon(v)
+	// Go-side scanners of the ast package (ast/decode.go skipBlank & co. walk the input with unsafe pointer loads)
+	case "ast_parse":
+		ps := ast.NewParser(s)
+		n, e := ps.Parse()
+		if e != 0 {
+			return "perr." + itoa(int(e)) + "@" + itoa(ps.Pos())
+		}
+		o, err := n.MarshalJSON()
+		return "pos" + itoa(ps.Pos()) + ":" + memErrCanon(err) + ":" + hexArg(o)
+	case "ast_parseobj":
+		ps := ast.NewParserObj(s)
+		n, e := ps.Parse()
+		if e != 0 {
+			return "perr." + itoa(int(e)) + "@" + itoa(ps.Pos())
+		}
+		v, err := n.Interface()
+		return "pos" + itoa(ps.Pos()) + ":" + memErrCanon(err) + ":" + memValCanon(v)
+	case "node_loadall":
+		n := ast.NewRaw(s)
+		if err := n.LoadAll(); err != nil {
+			return "load." + memErrCanon(err)
+		}
+		o, err := n.MarshalJSON()
+		return memErrCanon(err) + ":" + hexArg(o)
+	case "node_getk":
+		n := ast.NewRaw(s)
+		c := n.Get("a")
+		r, err := c.Raw()
+		l, _ := n.Len()
+		return memErrCanon(err) + ":" + hexArg([]byte(r)) + ":" + itoa(l)
+	case "node_idx":
+		n := ast.NewRaw(s)
+		c := n.Index(1)
+		r, err := c.Raw()
+		l, _ := n.Len()
+		return memErrCanon(err) + ":" + hexArg([]byte(r)) + ":" + itoa(l)
+	case "node_each":
+		n := ast.NewRaw(s)
+		cnt := 0
+		err := n.ForEach(func(path ast.Sequence, node *ast.Node) bool { cnt++; return true })
+		return memErrCanon(err) + ":" + itoa(cnt)
 	case "encinto_bytes", "encinto_any":
 		return memEncInto(api, b)
 	case "ftoa64":
@@ -512,7 +606,10 @@ func init() {
 		// (ii) ending `off` bytes before the PROT_NONE page
 		gs, gb := memPlaceAt(doc, gstart, edge, tail)
 		g := memGuarded(api, gs, gb)
-		return "sonic=" + heap + "\tguard=" + g + "\ttail=" + tl + "\tmode=" + memSimdMode()
+		// (iv) starting `off` bytes behind a PROT_NONE page (a read in front of the input faults)
+		fs, fb := memPlaceFront(doc, off, tail)
+		pre := memGuarded(api, fs, fb)
+		return "sonic=" + heap + "\tguard=" + g + "\ttail=" + tl + "\tpre=" + pre + "\tmode=" + memSimdMode()
 	})
 	registerOp("plain", func(a []string) string {
 		if len(a) < 2 {
